@@ -89,6 +89,42 @@ def extract(repo):
         raise AnchorLost('VarInt::MAX')
     facts['max_shift'] = int(m.group(1))
 
+    # the other checked constructors: they must delegate to from_u64 (the whole body is the delegation)
+    def body_of(rx, what, text):
+        m = re.search(rx, text, re.S)
+        if not m:
+            raise AnchorLost(what)
+        return re.sub(r'\s+', ' ', m.group(1)).strip()
+    b = body_of(r'impl\s+std::convert::TryFrom<u64>\s+for\s+VarInt\s*\{.*?fn\s+try_from\(x:\s*u64\)[^{]*\{(.*?)\}\s*\}', 'TryFrom<u64> for VarInt', src.text)
+    facts['try_from_u64_delegates'] = (b == 'VarInt::from_u64(x)')
+    if not facts['try_from_u64_delegates']:
+        raise AnchorLost('TryFrom<u64> for VarInt body: ' + b)
+    b = body_of(r'impl\s+std::convert::TryFrom<usize>\s+for\s+VarInt\s*\{.*?fn\s+try_from\(x:\s*usize\)[^{]*\{(.*?)\}\s*\}', 'TryFrom<usize> for VarInt', src.text)
+    facts['try_from_usize_delegates'] = (b == 'VarInt::try_from(x as u64)')
+    if not facts['try_from_usize_delegates']:
+        raise AnchorLost('TryFrom<usize> for VarInt body: ' + b)
+    pu = Source(repo + '/h3/src/proto/push.rs')
+    b = body_of(r'impl\s+TryFrom<u64>\s+for\s+PushId\s*\{.*?fn\s+try_from\(v:\s*u64\)[^{]*\{(.*?)\}\s*\}\s*\}', 'TryFrom<u64> for PushId', pu.text + '}')
+    facts['push_id_delegates'] = bool(re.fullmatch(r'match VarInt::try_from\(v\) \{ Ok\(id\) => Ok\(id\.into\(\)\), Err\(_\) => Err\(InvalidPushId\(v\)\), ?', b))
+    if not facts['push_id_delegates']:
+        raise AnchorLost('TryFrom<u64> for PushId body: ' + b)
+    # write_var / get_var wrappers, both copies
+    co = Source(repo + '/h3/src/proto/coding.rs')
+    wv, gv = [], []
+    for srcx in (src, co):
+        for mm in re.finditer(r'fn\s+write_var\(&mut self,\s*x:\s*u64\)\s*\{(.*?)\}', srcx.text, re.S):
+            wv.append(re.sub(r'\s+', ' ', mm.group(1)).strip())
+        for mm in re.finditer(r'fn\s+get_var\(&mut self\)\s*->\s*[^{;]*\{(.*?)\}', srcx.text, re.S):
+            gv.append(re.sub(r'\s+', ' ', mm.group(1)).strip())
+    if len(wv) != 2 or any(w != 'VarInt::from_u64(x).unwrap().encode(self);' for w in wv):
+        raise AnchorLost('write_var bodies: %r' % wv)
+    if len(gv) != 2 or any(g != 'Ok(VarInt::decode(self)?.into_inner())' for g in gv):
+        raise AnchorLost('get_var bodies: %r' % gv)
+    facts['write_var_is_checked_encode'] = True
+    facts['get_var_is_decode'] = True
+    if len(facts['size_rows']) != 4 or len(facts['enc_rows']) != 4 or len(facts['dec_rows']) != 4:
+        raise AnchorLost('varint tables must have four rows each')
+
     # StreamId
     s2 = Source(repo + '/h3/src/proto/stream.rs')
     t = s2.text
@@ -152,6 +188,11 @@ def render(f):
     L.append('Definition from_u64_strict : bool := %s.' % b(f['from_u64_strict']))
     L.append('Definition from_u64_pow : N := %d.' % f['from_u64_pow'])
     L.append('Definition encsize_shift : N := %d.' % f['encsize_shift'])
+    L.append('Definition try_from_u64_delegates : bool := %s.' % b(f['try_from_u64_delegates']))
+    L.append('Definition try_from_usize_delegates : bool := %s.' % b(f['try_from_usize_delegates']))
+    L.append('Definition push_id_delegates : bool := %s.' % b(f['push_id_delegates']))
+    L.append('Definition write_var_is_checked_encode : bool := %s.' % b(f['write_var_is_checked_encode']))
+    L.append('Definition get_var_is_decode : bool := %s.' % b(f['get_var_is_decode']))
     L.append('Definition max_shift : N := %d.' % f['max_shift'])
     L.append('Definition sid_index_shift : N := %d.' % f['sid_index_shift'])
     L.append('Definition sid_init_mask : N := %d.' % f['sid_init_mask'])
